@@ -157,6 +157,7 @@ func (w *world) inner() http.Handler {
 }
 
 type stackCfg struct {
+	connLimit int64 // 0: 100
 	kinds     []string
 	intervene int  // index of the middleware configured to intervene, -1 none
 	verbose   bool // every middleware gets its verbose/debug option and a logger that formats its arguments
@@ -195,6 +196,9 @@ func build(cfg stackCfg, h http.Handler) (http.Handler, error) {
 			}
 		case "connlimit":
 			limit := int64(100)
+			if cfg.connLimit > 0 {
+				limit = cfg.connLimit
+			}
 			if bad {
 				limit = 0
 			}
@@ -431,7 +435,7 @@ func runStack(w *world, ks []string, verbose bool, base map[behaviour]result, re
 	}
 	w.stream = !hasBuffer
 	// --- transparent configuration
-	h, err := build(stackCfg{ks, -1, verbose}, w.inner())
+	h, err := build(stackCfg{kinds: ks, intervene: -1, verbose: verbose}, w.inner())
 	if err != nil {
 		rep.DistrustF("cannot build %s: %v", name, err)
 		return
@@ -498,7 +502,7 @@ func runStack(w *world, ks []string, verbose bool, base map[behaviour]result, re
 		if !ok {
 			continue
 		}
-		h, err := build(stackCfg{ks, pos, verbose}, w.inner())
+		h, err := build(stackCfg{kinds: ks, intervene: pos, verbose: verbose}, w.inner())
 		if err != nil {
 			rep.DistrustF("cannot build %s: %v", name, err)
 			return
@@ -563,9 +567,13 @@ func (p *plainWriter) Write(b []byte) (int, error) {
 	return p.body.Write(b)
 }
 
-func probingHandler(b behaviour, invoked *int) http.Handler {
+func probingHandler(bp *behaviour, invoked *int, abort *bool) http.Handler {
 	return http.HandlerFunc(func(rw http.ResponseWriter, r *http.Request) {
 		*invoked++
+		b := *bp
+		if *abort {
+			panic(http.ErrAbortHandler) // a broken exchange, as a reverse proxy aborts it
+		}
 		// an upgrade attempt that must fail cleanly: nothing underneath can be hijacked
 		if hj, ok := rw.(http.Hijacker); ok {
 			if c, _, err := hj.Hijack(); err == nil && c != nil {
@@ -608,16 +616,27 @@ func servePlain(h http.Handler) (pw *plainWriter, pan any) {
 
 func runPlainWriter(ks []string, verbose bool, rep *lib.Report) {
 	name := strings.Join(ks, ">")
+	// ONE instance of the stack serves everything below: first a few exchanges that the handler aborts (more than
+	// the connection limiter's limit of 3, which sequential traffic never reaches), then every behaviour
+	var cur behaviour
+	n0, n1, abort, never := 0, 0, false, false
+	h, err := build(stackCfg{kinds: ks, intervene: -1, verbose: verbose, connLimit: 3}, probingHandler(&cur, &n1, &abort))
+	if err != nil {
+		return
+	}
+	abort = true
+	for k := 0; k < 5; k++ {
+		servePlain(h)
+		rep.Count("aborted_exchanges_before_the_probes")
+	}
+	abort = false
 	for _, b := range behaviours() {
 		if b.mode != 0 || b.hdr > 1 {
 			continue
 		}
-		n0, n1 := 0, 0
-		want, _ := servePlain(probingHandler(b, &n0))
-		h, err := build(stackCfg{ks, -1, verbose}, probingHandler(b, &n1))
-		if err != nil {
-			return
-		}
+		cur = b
+		n0, n1 = 0, 0
+		want, _ := servePlain(probingHandler(&cur, &n0, &never))
 		got, pan := servePlain(h)
 		rep.Evaluations++
 		rep.Count("exchanges_on_a_minimal_writer")
